@@ -32,6 +32,7 @@ type Evaluator struct {
 	lk    func(name string, st *State) (SVal, bool)
 	pkg   *ssa.Package
 	bound map[string]SVal
+	pre   *State // loop-entry state, for pre()
 }
 
 func (fx *FnCtx) evalIn(e Expr, env map[string]SVal, st, old *State, lk func(string, *State) (SVal, bool)) SVal {
@@ -66,6 +67,13 @@ func (ev *Evaluator) eval(e Expr) SVal {
 		}
 		sub := *ev
 		sub.st = ev.old
+		return sub.eval(x.X)
+	case *EPre:
+		if ev.pre == nil {
+			unsupported("pre() is only available in loop invariants")
+		}
+		sub := *ev
+		sub.st = ev.pre
 		return sub.eval(x.X)
 	case *ECond:
 		c := ev.eval(x.C)
@@ -591,6 +599,36 @@ func (ev *Evaluator) call(x *ECall) SVal {
 		}
 		unsupported("spec: unknown function %q", x.Fun)
 	}
+	// qualified call pkg.f(...)
+	if id, ok := x.Recv.(*EIdent); ok && ev.pkg != nil {
+		_, inEnv := ev.env[id.Name]
+		_, inBound := ev.bound[id.Name]
+		local := inEnv || inBound
+		if !local && ev.lk != nil {
+			if _, ok := ev.lk(id.Name, ev.st); ok {
+				local = true
+			}
+		}
+		if !local {
+			for _, imp := range ev.pkg.Pkg.Imports() {
+				if imp.Name() == id.Name || fx.eng.importAlias(ev.pkg, imp) == id.Name {
+					if sf, ok := fx.eng.contracts.SpecFuncs[x.Fun]; ok && sf.Pkg == imp.Path() {
+						return ev.specFunc(sf, x.Args)
+					}
+					if p := fx.eng.pkgByPath[imp.Path()]; p != nil {
+						if fn := p.Func(x.Fun); fn != nil {
+							var args []SVal
+							for _, a := range x.Args {
+								args = append(args, ev.eval(a))
+							}
+							return ev.goCall(fn, args)
+						}
+					}
+					unsupported("spec: unknown function %s.%s", id.Name, x.Fun)
+				}
+			}
+		}
+	}
 	// method call on a Go value
 	recv := ev.eval(x.Recv)
 	if recv.typ == nil {
@@ -766,15 +804,75 @@ func (fr *Frame) lookupName(name string, st *State, li *loopInfo) (SVal, bool) {
 		}
 		return fr.nameVal(v, true, st), true
 	}
-	if v, ok := fr.names[name]; ok {
-		if _, bound := fr.env[v]; bound || isConstLike(v) {
-			if li != nil {
-				li.resolved[name] = v
-			}
-			return fr.nameVal(v, false, st), true
+	if v := fr.resolveDebugName(name, li); v != nil {
+		if li != nil {
+			li.resolved[name] = v
 		}
+		return fr.nameVal(v, false, st), true
 	}
 	return SVal{}, false
+}
+
+// resolveDebugName: the SSA value a source-level variable name denotes at a loop head (or at function level):
+// among all values the debug information associates with the name, the one defined deepest in the dominator
+// tree that still dominates the program point. (Declarations may carry a zero constant; uses carry the value.)
+func (fr *Frame) resolveDebugName(name string, li *loopInfo) ssa.Value {
+	if fr.debugRefs == nil {
+		fr.debugRefs = map[string][]ssa.Value{}
+		for _, b := range fr.fn.Blocks {
+			for _, ins := range b.Instrs {
+				if d, ok := ins.(*ssa.DebugRef); ok && !d.IsAddr {
+					if obj := d.Object(); obj != nil {
+						fr.debugRefs[obj.Name()] = append(fr.debugRefs[obj.Name()], d.X)
+					}
+				}
+			}
+		}
+	}
+	var best ssa.Value
+	bestDepth := -2
+	depth := func(b *ssa.BasicBlock) int {
+		d := 0
+		for x := b.Idom(); x != nil; x = x.Idom() {
+			d++
+		}
+		return d
+	}
+	for _, v := range fr.debugRefs[name] {
+		d := -1
+		if ins, ok := v.(ssa.Instruction); ok {
+			vb := ins.Block()
+			if li != nil {
+				if vb == li.header || !vb.Dominates(li.header) {
+					if _, isPhi := v.(*ssa.Phi); !(isPhi && vb == li.header) {
+						continue
+					}
+				}
+			}
+			if _, bound := fr.env[v]; !bound {
+				continue
+			}
+			d = depth(vb)*100000 + indexInBlock(ins)
+		} else if !isConstLike(v) {
+			if _, bound := fr.env[v]; !bound {
+				continue
+			}
+			d = 0
+		}
+		if d > bestDepth {
+			best, bestDepth = v, d
+		}
+	}
+	return best
+}
+
+func indexInBlock(ins ssa.Instruction) int {
+	for i, x := range ins.Block().Instrs {
+		if x == ins {
+			return i
+		}
+	}
+	return 0
 }
 
 func isConstLike(v ssa.Value) bool {
@@ -797,7 +895,11 @@ func (fr *Frame) nameVal(v ssa.Value, isAddr bool, st *State) SVal {
 func (fr *Frame) evalSpec(e Expr, st *State, li *loopInfo) SVal {
 	fx := fr.fx
 	lk := func(name string, s *State) (SVal, bool) { return fr.lookupName(name, s, li) }
-	return fx.evalIn(e, map[string]SVal{}, st, fx.entry, lk)
+	ev := &Evaluator{fx: fx, env: map[string]SVal{}, st: st, old: fx.entry, lk: lk, pkg: fx.pkg, bound: map[string]SVal{}}
+	if li != nil {
+		ev.pre = li.preSt
+	}
+	return ev.eval(e)
 }
 
 func (fr *Frame) evalClause(c *Clause, st *State, li *loopInfo) Term {
